@@ -159,7 +159,8 @@ def run(harness, tier, seed, replay=None):
         return out
 
     def absorb(kind, item, r):
-        stats['evaluations'] += 1
+        stats['evaluations'] += r.get('n', 1)
+        stats['nt_extra'] = stats.get('nt_extra', 0) + r.get('nt_extra', 0)
         if r.get('harness_error'):
             stats['harness_errors'].append({'item': item, 'error': r['harness_error']})
             return
@@ -290,7 +291,7 @@ def run(harness, tier, seed, replay=None):
     cov = {
         'exhaustive': stats['capped'] is None and rc != 2,
         'evaluations': stats['evaluations'],
-        'distinct_nontrivial': len(stats['nontrivial']),
+        'distinct_nontrivial': len(stats['nontrivial']) + stats.get('nt_extra', 0),
         'rule': harness.rule,
         'samples': stats['samples'] or [{}],
         'distinct_outcomes': len(stats['outcomes']),
